@@ -766,10 +766,15 @@ def _stress(case: dict, env: core.Env) -> None:
     n = case["threads"]
     fs = core.new_fs()
     errors: list[tuple[int, BaseException]] = []
+    gave_up: list[int] = []
     barrier = threading.Barrier(n)
     order: list[int] = []
     olock = threading.Lock()
-    mode = r.choice(["same", "same", "mixed"])
+    mode = r.choice(["same", "same", "mixed", "db-ready", "db-ready"])
+    if mode == "db-ready":
+        # the database is there already (an earlier connect has finished with it); the sessions then arrive together, several
+        # times over, each time asking for a schema that does not exist yet
+        fs.connect("stressdb", "first")
 
     def hook(phase: str, t: Any, method: str, sql: Any) -> None:
         if phase == "before" and method == "execute":
@@ -780,7 +785,13 @@ def _stress(case: dict, env: core.Env) -> None:
     def body(i: int) -> None:
         try:
             barrier.wait(timeout=WATCHDOG)
-            db = "stressdb" if mode == "same" or i % 2 == 0 else f"stress{i}"
+            db = "stressdb" if mode in ("same", "db-ready") or i % 2 == 0 else f"stress{i}"
+            if mode == "db-ready":
+                for wave in range(4):
+                    cw = fs.connect(db, f"wave{wave}")
+                    got = cw.cursor().execute("SELECT CURRENT_SCHEMA()").fetchall()
+                    assert got == [(f"WAVE{wave}",)], f"thread {i} wave {wave}: current schema {got}"
+                    barrier.wait(timeout=WATCHDOG)
             c = fs.connect(db, "ss")
             cur = c.cursor()
             cur.execute("CREATE TABLE IF NOT EXISTS SHARED (ID INT, WHO INT)")
@@ -794,8 +805,11 @@ def _stress(case: dict, env: core.Env) -> None:
             assert mine == [(4,)], f"thread {i} sees {mine} of its own inserts"
             cm = cur.execute(f"SELECT comment FROM information_schema.tables WHERE table_name = 'MINE{i}' AND table_catalog = '{db.upper()}'").fetchall()
             assert cm == [(f"c{i}",)], f"thread {i} comment {cm}"
+        except threading.BrokenBarrierError:
+            gave_up.append(i)  # another thread failed and let everybody go; that one's error is the witness
         except BaseException as e:  # noqa: BLE001
             errors.append((i, e))
+            barrier.abort()
 
     threads = [threading.Thread(target=body, args=(i,), daemon=True) for i in range(n)]
     tap.HOOK = hook
@@ -817,7 +831,7 @@ def _stress(case: dict, env: core.Env) -> None:
         env.witness(f"C19/stress/exception-in-thread/{stage}/{kind}-{_exc_tag(e)}", f"thread {i} ({mode}): {type(e).__name__}: {str(e)[:300]}")
     env.count("cmp_conservation")
     snap = core.snapshot(fs, include_fs=False)
-    ok_threads = {i for i in range(n)} - {i for i, _ in errors}
+    ok_threads = {i for i in range(n)} - {i for i, _ in errors} - set(gave_up)
     for key, rows in snap["rows"].items():
         if key.endswith(".SHARED"):
             for rk, cnt in rows.items():
